@@ -73,7 +73,10 @@ def handleNative (op : String) (args : List String) : Option String :=
   | "nat.mirror", [_name, rd, h, e, t] | "nat.mirrorU", [_name, rd, h, e, t] =>
     match (Sexp.parse rd).bind rustOfSexp, bytesOfHex h, (Sexp.parse e).bind Env.ofSexp, (Sexp.parse t).bind Ty.ofSexp with
     | some (renv, rt), some bs, some env, some ty =>
-      let r := showNative (op = "nat.mirrorU") (decodeNative bs env renv rt ty ⟨none, none⟩)
+      -- the hypothesis of the theorems about the mirror (the expected type is the type of the Rust type) is
+      -- evaluated on every request: a description of a corpus type that does not satisfy it is an error of the harness
+      let r := if lockstep bs env renv rt ty 48 then showNative (op = "nat.mirrorU") (decodeNative bs env renv rt ty ⟨none, none⟩)
+               else "panic lockstep hypothesis does not hold for this description"
       some (r ++ "\t" ++ r)
     | _, _, _, _ => none
   | "nat.mirrorQ", [_name, rd, h, e, t, dq, sq] =>
